@@ -125,13 +125,37 @@ def _zseek(what, n, total, before, pos, c, u, t, whence, a, tape):
         return True
 
 
-def zseek_abs(n: int, total: int, before: int, pos: int, c: int, u: int, t: int, a: int, tape: List[int]) -> bool:
+def zseek_zero(n: int, total: int, before: int, pos: int, c: int, u: int, a: int, tape: List[int]) -> bool:
     """
-    seek(t, 0) backwards or forwards, then read(a).
-    pre: 0 <= n <= 400000 and 2 <= total <= 2000000 and 0 <= before <= 2
+    seek(0, 0) (rewind) from any state, then read(a).
+    pre: 0 <= n <= 2000000 and 2 <= total <= 2000000 and 0 <= before <= 2
     pre: 0 <= pos and 0 <= c and 0 <= u <= 524288
-    pre: -2 <= t <= 400010 and 0 <= a <= 300000
-    pre: len(tape) <= 9
+    pre: 0 <= a <= 600000
+    pre: len(tape) <= 5
+    post: _
+    """
+    return _zseek('check', n, total, before, pos, c, u, 0, 0, a, tape)
+
+
+def zseek_back(n: int, total: int, before: int, pos: int, c: int, u: int, t: int, a: int, tape: List[int]) -> bool:
+    """
+    seek(t, 0) to a target before the current position (rewind, then inflate forward again), then read(a).
+    pre: 0 <= n <= 200000 and 2 <= total <= 2000000 and 0 <= before <= 2
+    pre: 0 <= pos and 0 <= c and 0 <= u <= 524288
+    pre: -2 <= t < pos and 0 <= a <= 1000
+    pre: len(tape) <= 7
+    post: _
+    """
+    return _zseek('check', n, total, before, pos, c, u, t, 0, a, tape)
+
+
+def zseek_fwd(n: int, total: int, before: int, pos: int, c: int, u: int, t: int, a: int, tape: List[int]) -> bool:
+    """
+    seek(t, 0) to a target at or after the current position (also beyond the end: clamped), then read(a).
+    pre: 0 <= n <= 200000 and 2 <= total <= 2000000 and 0 <= before <= 2
+    pre: 0 <= pos and 0 <= c and 0 <= u <= 524288
+    pre: pos <= t <= 200010 and 0 <= a <= 1000
+    pre: len(tape) <= 7
     post: _
     """
     return _zseek('check', n, total, before, pos, c, u, t, 0, a, tape)
@@ -140,13 +164,24 @@ def zseek_abs(n: int, total: int, before: int, pos: int, c: int, u: int, t: int,
 def zseek_rel(n: int, total: int, before: int, pos: int, c: int, u: int, t: int, a: int, tape: List[int]) -> bool:
     """
     seek(t, 1), then read(a).
-    pre: 0 <= n <= 400000 and 2 <= total <= 2000000 and 0 <= before <= 2
+    pre: 0 <= n <= 200000 and 2 <= total <= 2000000 and 0 <= before <= 2
     pre: 0 <= pos and 0 <= c and 0 <= u <= 524288
-    pre: -400010 <= t <= 400010 and 0 <= a <= 300000
-    pre: len(tape) <= 9
+    pre: -200010 <= t <= 200010 and 0 <= a <= 1000
+    pre: len(tape) <= 7
     post: _
     """
     return _zseek('check', n, total, before, pos, c, u, t, 1, a, tape)
+
+
+def zseek_far(n: int, total: int, t: int, a: int, tape: List[int]) -> bool:
+    """
+    seek(t, 0) from the initial state across the 256 KiB read-ahead step of _seek_internal, then read(a).
+    pre: 262000 <= n <= 600000 and 2 <= total <= 2000000
+    pre: 262000 <= t <= 600010 and 0 <= a <= 1000
+    pre: len(tape) <= 9
+    post: _
+    """
+    return _zseek('check', n, total, 1, 0, 0, 0, t, 0, a, [0] + tape)
 
 
 def zseek_reach(n: int, total: int, before: int, pos: int, c: int, u: int, t: int, a: int, tape: List[int]) -> bool:
